@@ -343,7 +343,8 @@ def to_bool(v):
     if v is None:
         return z3.BoolVal(False)
     if isinstance(v, OptV):
-        raise VCError("truth value of Optional[int] (None vs 0) is outside the subset; use `is None`")
+        # Python truthiness of Optional[int]: None and 0 are both false
+        return z3.And(z3.Not(v.is_none), v.val != 0)
     if isinstance(v, SeqV):
         return to_z3(v.len) != 0
     if isinstance(v, int):
@@ -624,6 +625,7 @@ class Executor:
         s.set("timeout", 400)
         for f in st.pc:
             s.add(f)
+        add_distinct(s)    # distinct string literals: `algo == 'a'` excludes `algo == 'b'`
         r = s.check()
         return r != z3.unsat
 
@@ -721,6 +723,12 @@ class Executor:
             if key not in self.c.abstract and isinstance(s, ast.If):
                 for k2 in self.c.abstract:
                     if k2.startswith("If@") and k2[3:] in ast.unparse(s.test):
+                        key = k2
+            # ... or by their exact text: "Stmt@<ast.unparse of the statement>" - the assumed summary applies to this very statement only;
+            # any edit of it leaves the statement to the executor (usually: outside the subset -> contract stale, undecided)
+            if key not in self.c.abstract:
+                for k2 in self.c.abstract:
+                    if k2.startswith("Stmt@") and k2[5:] == ast.unparse(s):
                         key = k2
             if key in self.c.abstract:
                 ab = self.c.abstract[key]
@@ -901,7 +909,36 @@ class Executor:
             st.assume(z3.And(idx >= 0, idx < to_z3(seq.len)))
         return idx
 
+    def _effectful(self, e):
+        """does evaluating `e` call a function whose contract modifies an argument?"""
+        for n in ast.walk(e):
+            if isinstance(n, ast.Call):
+                name = n.func.id if isinstance(n.func, ast.Name) else (n.func.attr if isinstance(n.func, ast.Attribute) else None)
+                cc = self.contracts.get(name) if name else None
+                if cc is not None and cc.modifies:
+                    return True
+        return False
+
     def s_If(self, s, st):
+        # `if A or B:` / `if A and B:` where a later operand has side effects (call by contract with a modifies clause): evaluate the
+        # operands one after the other, each in the state its predecessors left, exactly as the short-circuit does
+        if isinstance(s.test, ast.BoolOp) and any(self._effectful(x) for x in s.test.values[1:]):
+            is_or = isinstance(s.test.op, ast.Or)
+            outs, cur = [], st
+            for i, x in enumerate(s.test.values):
+                v = z3.simplify(to_bool(self.eval(x, cur)))
+                last = i == len(s.test.values) - 1
+                decided = cur.fork()       # operand decides the test: true in `or`, false in `and`
+                decided.assume(v if is_or else z3.Not(v))
+                decided.trace.append(f"L{s.lineno}:op{i}:{'T' if is_or else 'F'}")
+                if not z3.is_false(v if is_or else z3.Not(v)) and self.feasible(decided):
+                    outs.extend(self.exec_block(s.body if is_or else s.orelse, decided))
+                cur.assume(z3.Not(v) if is_or else v)
+                if not self.feasible(cur):
+                    return outs
+                if last:
+                    outs.extend(self.exec_block(s.orelse if is_or else s.body, cur))
+            return outs
         outs = []
         for st2, v in self.eval_fork(s.test, st):
             cond = to_bool(v)
